@@ -222,3 +222,11 @@ def via_json(sch, step):
     from prosemirror.transform import Step
 
     return Step.from_json(sch.schema, json.loads(json.dumps(step.to_json())))
+
+
+def both_open_non_prefix(rs, content, open_start, open_end):
+    """Does the slice contain a node that is open at its start AND at its end (the left and
+    the right open side run through the same node)?  Node.slice never yields that - it cuts
+    at the deepest common ancestor - but a cut that keeps its ancestors does.  The fitter and
+    close_fragment treat the two open sides as disjoint (upstream too)."""
+    return min(open_start, open_end) >= 1 and len(content) == 1 and content[0][0] == "n"
